@@ -81,7 +81,7 @@ func Harness_C12_leak_channel() {
 	if verifNondetBool("explicit_close") {
 		go func() { e1 = c.Close() }()
 	}
-	go cancel()
+	go func() { cancel() }()
 	verifFinally(func() {
 		verifAssert(verifClosed(c.Done()), "done_closed")
 		verifAssert(c.Close() != nil, "close_after_termination_errors")
@@ -117,7 +117,7 @@ func Harness_C12_leak_combine() {
 	p, pc := context.WithCancel(context.Background())
 	a, _ := context.WithCancel(context.Background())
 	r := CombineContext(p, a)
-	go pc()
+	go func() { pc() }()
 	verifFinally(func() {
 		verifAssert(r.Err() != nil, "result_cancelled")
 		verifAssert(verifPendingAfterFuncs() == 0, "no_afterfunc_left_registered_on_other_contexts")
